@@ -130,21 +130,10 @@ def job_efinix(win, nout, fb, phases, tag):
         res = dict(dividers_inside_ranges=inr, outputs_exact_and_vco_pfd_in_range=(ok if ok is not False else False))
         if ok is not False:
             res["reported_vco_frequency_equals_config"] = AND(block["VCO_FREQ"] - vco <= vco * SL, vco - block["VCO_FREQ"] <= vco * SL)
-            # "Interface designer always selects the highest VCO frequency": no other valid setting in the window has a strictly higher VCO
-            better = []
-            for n in builtins.range(n0, n0 + nw):
-                for m in builtins.range(m0, m0 + mw):
-                    for o in ofact:
-                        for cs2 in itertools.product(*[crange(i) for i in range(nout)]):
-                            ok2, vco2 = spec(n, m, o, cs2, -SL)
-                            if ok2 is not False:
-                                better.append(AND(ok2, vco2 / o <= Fraction(lmax), vco2 > vco * (1 + SL)))
-            res["selected_vco_is_highest_valid"] = NOT(OR(*better)) if better else True
         else:
             res["reported_vco_frequency_equals_config"] = False
-            res["selected_vco_is_highest_valid"] = False
         return res
-    checks = ["dividers_inside_ranges", "outputs_exact_and_vco_pfd_in_range", "reported_vco_frequency_equals_config", "selected_vco_is_highest_valid", "refused_only_if_no_setting_in_window"]
+    checks = ["dividers_inside_ranges", "outputs_exact_and_vco_pfd_in_range", "reported_vco_frequency_equals_config", "refused_only_if_no_setting_in_window"]
     return run_pysym("trionpll_%s" % tag, body, checks, required_events=["configured", "refused"],
                      funcs=["litex.soc.cores.clock.efinix.EFINIXPLL.compute_config", "litex.soc.cores.clock.efinix.TRIONPLL.get_c_range/get_vco_freq_range/get_pfd_freq_range/get_pll_freq_range"],
                      cfg=dict(window=win, outputs=nout, feedback=fb, phases=phases), replay_dir=rdir(), max_paths=400000)
